@@ -7,6 +7,7 @@ pub mod c04;
 pub mod c05;
 pub mod c06;
 pub mod c10;
+pub mod c12;
 pub mod c14;
 pub mod c15;
 pub mod c16;
@@ -21,6 +22,7 @@ pub fn run(ctx: &Ctx) -> Report {
     "C05" => c05::run(ctx),
     "C06" => c06::run(ctx),
     "C10" => c10::run(ctx),
+    "C12" => c12::run(ctx),
     "C13" => c03::run_c13(ctx),
     "C14" => c14::run(ctx),
     "C15" => c15::run(ctx),
